@@ -184,7 +184,70 @@ def parse_constants_h(text: str) -> dict:
     return {m.group(1): m.group(2) for m in re.finditer(r"^#define\s+(\w+)\s+([-+\w\.]+)\s*$", text, flags=re.M)}
 
 
+def _expand_cdef_blocks(text: str) -> str:
+    """`cdef:` followed by an indented block of declarations -> one `cdef <decl>` per line (same line numbers)"""
+    lines = text.split("\n")
+    out = []
+    i = 0
+    while i < len(lines):
+        ln = lines[i]
+        m = re.match(r"^(\s*)cdef\s*:\s*(#.*)?$", ln)
+        if not m:
+            out.append(ln)
+            i += 1
+            continue
+        base = m.group(1)
+        out.append("")
+        i += 1
+        while i < len(lines):
+            nxt = lines[i]
+            if nxt.strip() == "" or nxt.strip().startswith("#"):
+                out.append("" if nxt.strip() == "" else nxt)
+                i += 1
+                continue
+            ind = nxt[: len(nxt) - len(nxt.lstrip())]
+            if len(ind) <= len(base):
+                break
+            out.append(base + "cdef " + nxt.strip())
+            i += 1
+    return "\n".join(out)
+
+
+def parse_inline_attrs(text: str) -> dict:
+    """C attributes declared inside `cdef class` bodies of a .pyx file (not in a .pxd):
+    {class: {"arrays": {name: n}, "scalars": [names]}}"""
+    text = _expand_cdef_blocks(text)
+    out, cls, cls_indent = {}, None, 0
+    for ln in text.split("\n"):
+        s = _strip_comment(ln).rstrip()
+        if not s.strip():
+            continue
+        ind = len(s) - len(s.lstrip())
+        m = re.match(r"^\s*cdef class (\w+)", s)
+        if m:
+            cls, cls_indent = m.group(1), ind
+            out.setdefault(cls, {"arrays": {}, "scalars": []})
+            continue
+        if cls and ind <= cls_indent:
+            cls = None
+        if cls and ind == cls_indent + 4:
+            body = s.strip()
+            m = re.match(r"^cdef\s+(?:readonly\s+|public\s+)?double\s*\[\s*(\d+)\s*\]\s+(\w+)\s*$", body) or None
+            if m:
+                out[cls]["arrays"][m.group(2)] = int(m.group(1))
+                continue
+            m = re.match(r"^cdef\s+(?:readonly\s+|public\s+)?double\s+(\w+)\s*\[\s*(\d+)\s*\]\s*$", body)
+            if m:
+                out[cls]["arrays"][m.group(1)] = int(m.group(2))
+                continue
+            m = re.match(r"^cdef\s+(?:readonly\s+|public\s+)?(?:double|int|bint)\s+([\w\s,]+)$", body)
+            if m and "(" not in body:
+                out[cls]["scalars"] += [a.strip() for a in m.group(1).split(",")]
+    return out
+
+
 def preprocess(text: str) -> str:
+    text = _expand_cdef_blocks(text)
     out_lines = []
     in_doc = None
     extern_indent = None
@@ -234,6 +297,8 @@ def _rewrite(code: str, cs: str, indent: str) -> str:
         return indent + cs.replace("cimport", "import", 1)
     if re.match(r"^cdef class\b", cs):
         return indent + cs[5:]
+    if re.match(r"^with\s+cython\.\w+(\(.*\))?\s*:\s*$", cs):
+        return indent + "if True:"
     if re.match(r"^ctypedef\b", cs):
         return indent + "pass"
     if re.match(r"^(cdef|cpdef)\b", cs):
@@ -248,6 +313,17 @@ def _rewrite(code: str, cs: str, indent: str) -> str:
 def _cdef_decl(cs: str) -> str:
     """local / module level C declaration"""
     body = re.sub(r"^(cdef|cpdef)\s+", "", cs)
+    parts = _split_top(body, ",")
+    if len(parts) > 1 and "=" in body:
+        # `double lwr = 0.0, upr = 1.0` / `double t0 = 0.0, t1`: scalar declarations sharing one type
+        m = re.match(r"^((?:const\s+)?(?:unsigned\s+)?[\w\.]+)\s+(.*)$", parts[0].strip())
+        if not m or "[" in m.group(1) or "*" in parts[0]:
+            raise PyxError(f"cannot parse C declaration {cs!r}")
+        items = [m.group(2)] + [p.strip() for p in parts[1:]]
+        stmts = [it for it in items if "=" in it]
+        if any(not re.match(r"^\w+\s*=", it) for it in stmts):
+            raise PyxError(f"cannot parse C declaration {cs!r}")
+        return "; ".join(stmts) if stmts else "pass"
     if "=" in body:
         lhs, rhs = [t.strip() for t in _split_top(body, "=")[:2]]
         rhs = "=".join(t for t in _split_top(body, "=")[1:]).strip()
